@@ -11,7 +11,7 @@
 //! that decodes UTF-8, and resumption of a cancelled parse whose input arrives in 4-byte chunks.
 //! Function-level `L`/`D` lines (lexer scripts under chunkers, decoder) are emitted as in c13.
 //! usage: c09 <ops-file> [--spec <file>] [lang...]
-//! spec: `<lang> <dochex|-> <drive>` with drive = c<k> | s<p1,p2,..> | pt:c<k> | u16le:pt:c<k> | u16be:pt:c<k> | u16le | u16be | u16le:c<k> | hist:<ops> | failed | log | dot | dotlog | custom:c<k> | cancel:<k>:resume | cancel:<k>:resume4 | cancel:<k>:reset
+//! spec: `<lang> <dochex|-> <drive>` with drive = c<k> | s<p1,p2,..> | pt:c<k> | u16le:pt:c<k> | u16be:pt:c<k> | u16le | u16be | u16le:c<k> | hist:<ops> | <u16le|u16be|custom>:after:<ops> | failed | log | dot | dotlog | custom:c<k> | cancel:<k>:resume | cancel:<k>:resume4 | cancel:<k>:reset
 use std::io::Write;
 use std::ops::ControlFlow;
 use tree_sitter::{Decode, Language, ParseOptions, Parser, Point, Range, Tree};
@@ -213,6 +213,24 @@ fn apply_history(p: &mut Parser, cx: &Ctx, doc: &[u8], ops: &str) {
                 let _ = p.parse_with_options(&mut |b: usize, _| if b >= len { &doc[0..0] } else { &doc[b..] }, None, Some(ParseOptions::new().progress_callback(&mut cb)));
                 p.reset();
             }
+            "enc16le" | "enc16be" | "enccustom" | "enc8" => {
+                // the same parser object used for ANOTHER ENCODING before (non-ASCII text, so that a decoder is needed)
+                let fixed = "caf\u{e9} 7 \u{e9}t\u{e9} \u{1d4b3} x".as_bytes();
+                let text: &[u8] = if std::str::from_utf8(doc).is_ok() && !doc.is_ascii() { doc } else { fixed };
+                match op {
+                    "enc8" => {
+                        let _ = p.parse(text, None);
+                    }
+                    "enccustom" => {
+                        let _ = parse_custom(p, text, 0);
+                    }
+                    _ => {
+                        if let Some((units, _)) = to_utf16(text) {
+                            let _ = parse_u16(p, &units, op == "enc16be", 0);
+                        }
+                    }
+                }
+            }
             "flip" => {
                 // language switched back and forth without a parse
                 p.set_language(cx.other).unwrap();
@@ -342,6 +360,20 @@ fn run_drive(out: &mut impl Write, cid: &str, n: &mut usize, st: &mut Stats, cx:
         emit_drive(out, cid, n, st, "chunk", &format!("c{k}"), &format!("ptbad {bad}"), t);
         return;
     }
+    if let Some((enc, ops)) = drive.split_once(":after:") {
+        // a parser with a history (incl. parses in other encodings), final parse in encoding `enc`
+        let mut p = fresh(cx.lang);
+        apply_history(&mut p, cx, doc, ops);
+        if enc == "custom" {
+            let t = parse_custom(&mut p, doc, 0);
+            emit_drive(out, cid, n, st, "chunk", "c0", "", t);
+        } else if let Some((units, map)) = to_utf16(doc) {
+            let t = parse_u16(&mut p, &units, enc == "u16be", 0);
+            let m: Vec<String> = map.iter().map(|(a, b)| format!("{a}:{b}")).collect();
+            emit_drive(out, cid, n, st, "utf16", enc, &format!("map {}", m.join(",")), t);
+        }
+        return;
+    }
     if drive.starts_with("u16") && drive.contains(":pt:c") {
         if let Some((units, map)) = to_utf16(doc) {
             let be = drive.starts_with("u16be");
@@ -406,7 +438,86 @@ fn run_drive(out: &mut impl Write, cid: &str, n: &mut usize, st: &mut Stats, cx:
     }
 }
 
+static CASE_TMP: std::sync::OnceLock<String> = std::sync::OnceLock::new();
+
+extern "C" {
+    fn fork() -> i32;
+    fn waitpid(pid: i32, status: *mut i32, options: i32) -> i32;
+    fn _exit(code: i32) -> !;
+}
+
+/// Every case runs in a forked child: a drive that crashes (or hangs: 120 s alarm) the library takes only its
+/// case with it, and is reported as a drive without a tree (`crash`), with its spec as the failing input.
 fn emit_case(out: &mut impl Write, cid: &str, lang_id: &str, cx: &Ctx, doc: &[u8], drives: &[String], st: &mut Stats) {
+    let tmp = match CASE_TMP.get() {
+        Some(t) => t.clone(),
+        None => return emit_case_inner(out, cid, lang_id, cx, doc, drives, st),
+    };
+    out.flush().unwrap();
+    let pid = unsafe { fork() };
+    if pid < 0 {
+        return emit_case_inner(out, cid, lang_id, cx, doc, drives, st);
+    }
+    if pid == 0 {
+        extern "C" {
+            fn alarm(seconds: u32) -> u32;
+        }
+        unsafe {
+            alarm(120);
+        }
+        let mut f = std::io::BufWriter::new(std::fs::File::create(&tmp).unwrap());
+        let mut cst = Stats { cases: 0, drives: 0, kinds: Default::default(), cancelled: 0 };
+        HIST_CANCELLED.store(0, std::sync::atomic::Ordering::Relaxed);
+        emit_case_inner(&mut f, cid, lang_id, cx, doc, drives, &mut cst);
+        let kinds: Vec<String> = cst.kinds.iter().map(|(k, v)| format!("{k}={v}")).collect();
+        writeln!(f, "STATS {} {} {} {} {}", cst.cases, cst.drives, cst.cancelled, HIST_CANCELLED.load(std::sync::atomic::Ordering::Relaxed), kinds.join(",")).unwrap();
+        f.flush().unwrap();
+        drop(f);
+        unsafe { _exit(0) }
+    }
+    let mut status = 0i32;
+    unsafe {
+        waitpid(pid, &mut status, 0);
+    }
+    let content = std::fs::read_to_string(&tmp).unwrap_or_default();
+    let _ = std::fs::remove_file(&tmp);
+    if status == 0 {
+        if let Some(at) = content.rfind("STATS ") {
+            out.write_all(content[..at].as_bytes()).unwrap();
+            let f: Vec<&str> = content[at..].split_whitespace().collect();
+            let num = |i: usize| f.get(i).and_then(|x| x.parse::<usize>().ok()).unwrap_or(0);
+            st.cases += num(1);
+            st.drives += num(2);
+            st.cancelled += num(3);
+            HIST_CANCELLED.fetch_add(num(4), std::sync::atomic::Ordering::Relaxed);
+            for kv in f.get(5).unwrap_or(&"").split(',') {
+                if let Some((k, v)) = kv.split_once('=') {
+                    *st.kinds.entry(k.to_string()).or_insert(0) += v.parse::<usize>().unwrap_or(0);
+                }
+            }
+        }
+        return;
+    }
+    // the child died: keep what it completed, report the drive it was running
+    match content.rfind("\nspec ") {
+        Some(at) => {
+            let end = content[at + 1..].find('\n').map(|e| at + 1 + e + 1).unwrap_or(content.len());
+            let spec_line = content[at + 1..end].trim_end();
+            let parts: Vec<&str> = spec_line.split_whitespace().collect();
+            if parts.len() >= 5 && content[..end].ends_with('\n') {
+                out.write_all(content[..end].as_bytes()).unwrap();
+                writeln!(out, "drive {} crash {}\nnotree\nrundrive", parts[1], parts[4]).unwrap();
+                st.cases += 1;
+                st.drives += 1;
+                *st.kinds.entry("crash".into()).or_insert(0) += 1;
+                eprintln!("c09: the library crashed or hung (wait status {status}) in drive {} of case {cid}", parts[4]);
+            }
+        }
+        None => eprintln!("c09: the library crashed (wait status {status}) in the canonical parse of case {cid}"),
+    }
+}
+
+fn emit_case_inner(out: &mut impl Write, cid: &str, lang_id: &str, cx: &Ctx, doc: &[u8], drives: &[String], st: &mut Stats) {
     if doc.len() > 60_000 {
         return;
     }
@@ -421,6 +532,7 @@ fn emit_case(out: &mut impl Write, cid: &str, lang_id: &str, cx: &Ctx, doc: &[u8
     let mut n = 0usize;
     for d in drives {
         writeln!(out, "spec {cid}.{} {lang_id} {} {d}", n + 1, hx(doc)).unwrap();
+        out.flush().unwrap();
         run_drive(out, cid, &mut n, st, cx, doc, d);
     }
 }
@@ -463,11 +575,22 @@ fn drives_for(rng: &mut Rng, lang: &Language, doc: &[u8], thorough: bool) -> Vec
         v.push(format!("u16le:c{}", rng.range(1, 3)));
         v.push(format!("u16be:c{}", rng.range(1, 3)));
     }
-    let hops = ["other", "same", "half", "lang", "ranges", "reset", "cancel", "incr", "flip", "langcancel", "cancelsl", "cancelk", "cancelo", "rset", "logoff", "dotoff"];
+    let hops = ["other", "same", "half", "lang", "ranges", "reset", "cancel", "incr", "flip", "langcancel", "cancelsl", "cancelk", "cancelo", "rset", "logoff", "dotoff", "enc16le", "enc16be", "enccustom", "enc8"];
     for _ in 0..(if thorough { 6 } else { 3 }) {
         let k = rng.range(1, 5);
         let ops: Vec<&str> = (0..k).map(|_| *rng.pick(&hops)).collect();
         v.push(format!("hist:{}", ops.join("+")));
+    }
+    // one parser across encodings: every ordered pair (history encoding, final encoding)
+    for h in ["enc16le", "enc16be", "enccustom", "enc8"] {
+        v.push(format!("hist:{h}"));
+    }
+    if std::str::from_utf8(doc).is_ok() {
+        for fin in ["u16le", "u16be", "custom"] {
+            let h = *rng.pick(&["enc8", "enc16le", "enc16be", "enccustom"]);
+            let extra = *rng.pick(&["", "+reset", "+flip", "+other"]);
+            v.push(format!("{fin}:after:{h}{extra}"));
+        }
     }
     v.push("log".into());
     v.push("failed".into());
@@ -599,6 +722,7 @@ fn main() {
     let args: Vec<String> = std::env::args().collect();
     let out_path = args.get(1).expect("usage: c09 <ops-file> [--spec file] [lang...]").clone();
     let mut out = std::io::BufWriter::new(std::fs::File::create(&out_path).unwrap());
+    let _ = CASE_TMP.set(format!("{out_path}.case"));
     let mut st = Stats { cases: 0, drives: 0, kinds: Default::default(), cancelled: 0 };
     let other = zoo::load("arith").expect("arith");
     let other_doc = b"1 + 2 * (x - 3)".to_vec();
